@@ -21,6 +21,7 @@ import (
 	"io"
 	"os"
 	"os/exec"
+	"os/signal"
 	"path/filepath"
 	"regexp"
 	"runtime"
@@ -49,6 +50,11 @@ const (
 	envInput   = "C07_INPUT"   // match: input description
 	envCeiling = "C07_CEILING" // per-call ceiling (default 30s)
 	envMemGiB  = "C07_MEM_GIB" // address-space limit of a worker (default 6)
+	envSkip    = "C07_SKIP"    // upto/match: calls not to execute
+
+	// once an entry point has a confirmed hang, further calls of the same
+	// entry point are given this ceiling and are not re-confirmed
+	reducedCeiling = 5 * time.Second
 
 	kitPrefix = "github.com/dapr/kit/"
 )
@@ -79,12 +85,15 @@ type Ctx struct {
 	mInput string
 	hit    bool
 	keyOf  map[string]string // entry+"\x00"+panic text -> key
+	skip   map[uint64]bool   // calls not to execute (already reported as hang/fatal)
+	entIDs map[string]uint64
+	cur    atomic.Pointer[curCall] // the call in flight (read by the SIGUSR1 handler)
 	perKey map[string]int
 	sample []string
 }
 
 type protoMsg struct {
-	T      string   `json:"t"` // done | viol | at | survived
+	T      string   `json:"t"` // done | viol | at | survived | entry
 	Area   int      `json:"area,omitempty"`
 	Chunk  int      `json:"chunk,omitempty"`
 	Seq    uint64   `json:"seq,omitempty"`
@@ -96,6 +105,12 @@ type protoMsg struct {
 	Input  string   `json:"input,omitempty"`
 	Count  int      `json:"count,omitempty"`
 	Sample []string `json:"sample,omitempty"`
+}
+
+type curCall struct {
+	seq      uint64
+	entry    string
+	describe func() string
 }
 
 // ReplayCase is what is stored with a violation and understood by -replay.
@@ -121,7 +136,18 @@ func (c *Ctx) NonTrivial(n int) { c.nontr += int64(n) }
 func (c *Ctx) Call(entry string, describe func() string, fn func()) (panicked bool) {
 	c.seq++
 	c.evals++
+	id, ok := c.entIDs[entry]
+	if !ok {
+		id = uint64(len(c.entIDs) + 1)
+		c.entIDs[entry] = id
+		c.emit(protoMsg{T: "entry", Seq: id, Entry: entry})
+	}
+	atomic.StoreUint64((*uint64)(unsafe.Pointer(&c.mark[16])), id)
 	atomic.StoreUint64((*uint64)(unsafe.Pointer(&c.mark[8])), c.seq)
+	if c.skip[c.seq] {
+		return false
+	}
+	c.cur.Store(&curCall{c.seq, entry, describe})
 	switch c.mode {
 	case "upto":
 		if c.seq == c.upto {
@@ -212,6 +238,8 @@ func Class(text string) string {
 		strings.Contains(t, "makeslice: len out of range"), strings.Contains(t, "makeslice: cap out of range"),
 		strings.Contains(t, "cannot convert slice with length"):
 		return "bounds"
+	case strings.HasPrefix(t, "crypto/cipher:"), strings.HasPrefix(t, "cipher.New"):
+		return "cipher-args" // the standard library's cipher modes reject the argument sizes by panicking
 	case strings.Contains(t, "nil pointer dereference"):
 		return "nil-deref"
 	case strings.Contains(t, "interface conversion"):
@@ -336,10 +364,35 @@ func workerMain(areas []*Area, thorough bool) {
 		os.Exit(7)
 	}
 	proto := os.NewFile(3, "proto")
-	c := &Ctx{Thorough: thorough, mark: mark, proto: json.NewEncoder(proto), keyOf: map[string]string{}, perKey: map[string]int{}}
+	c := &Ctx{Thorough: thorough, mark: mark, proto: json.NewEncoder(proto), keyOf: map[string]string{}, perKey: map[string]int{}, entIDs: map[string]uint64{}}
 	c.mode = os.Getenv(envMode)
-	runTask := func(ai, chunk int) {
+	// SIGUSR1 = "you look stuck": say which call is in flight, dump all
+	// goroutine stacks, and exit
+	sig := make(chan os.Signal, 1)
+	signal.Notify(sig, syscall.SIGUSR1)
+	go func() {
+		<-sig
+		m := protoMsg{T: "stuck"}
+		if cc := c.cur.Load(); cc != nil {
+			m.Seq, m.Entry = cc.seq, cc.entry
+			func() {
+				defer func() { recover() }()
+				m.Input = cc.describe()
+			}()
+		}
+		buf := make([]byte, 1<<20)
+		m.Msg = string(buf[:runtime.Stack(buf, true)])
+		c.emit(m)
+		os.Exit(3)
+	}()
+	runTask := func(ai, chunk int, skip string) {
 		c.seq, c.evals, c.nontr, c.sample = 0, 0, 0, nil
+		c.skip = map[uint64]bool{}
+		for _, f := range strings.Split(skip, ",") {
+			if n, err := strconv.ParseUint(f, 10, 64); err == nil {
+				c.skip[n] = true
+			}
+		}
 		c.perKey = map[string]int{}
 		atomic.StoreUint64((*uint64)(unsafe.Pointer(&mark[8])), 0)
 		atomic.StoreUint64((*uint64)(unsafe.Pointer(&mark[0])), uint64(ai)<<32|uint64(uint32(chunk)))
@@ -351,16 +404,22 @@ func workerMain(areas []*Area, thorough bool) {
 		fmt.Sscanf(os.Getenv(envTask), "%d:%d", &ai, &chunk)
 		c.upto, _ = strconv.ParseUint(os.Getenv(envSeq), 10, 64)
 		c.mEntry, c.mInput = os.Getenv(envEntry), os.Getenv(envInput)
-		runTask(ai, chunk)
+		runTask(ai, chunk, os.Getenv(envSkip))
 		os.Exit(0)
 	}
 	in := bufio.NewScanner(os.Stdin)
+	in.Buffer(make([]byte, 1<<16), 1<<22)
 	for in.Scan() {
-		var ai, chunk int
-		if _, err := fmt.Sscanf(in.Text(), "%d:%d", &ai, &chunk); err != nil {
+		f := strings.SplitN(in.Text(), ":", 3)
+		if len(f) < 3 {
 			continue
 		}
-		runTask(ai, chunk)
+		ai, e1 := strconv.Atoi(f[0])
+		chunk, e2 := strconv.Atoi(f[1])
+		if e1 != nil || e2 != nil {
+			continue
+		}
+		runTask(ai, chunk, f[2])
 	}
 	os.Exit(0)
 }
@@ -392,6 +451,36 @@ type proc struct {
 	mark   []byte
 	stderr *capBuf
 	hung   atomic.Bool
+	entMu  sync.Mutex
+	ents   map[uint64]string
+	stuck  *protoMsg
+}
+
+// nudge asks a stalled worker to report what it is doing and kills it if it
+// does not leave within 3 s.
+func (p *proc) nudge() {
+	if p.cmd == nil || p.cmd.Process == nil {
+		return
+	}
+	p.cmd.Process.Signal(syscall.SIGUSR1)
+	pr := p.cmd.Process
+	go func() {
+		time.Sleep(3 * time.Second)
+		pr.Kill()
+	}()
+}
+
+func (p *proc) entryName() string {
+	id := atomic.LoadUint64((*uint64)(unsafe.Pointer(&p.mark[16])))
+	p.entMu.Lock()
+	defer p.entMu.Unlock()
+	return p.ents[id]
+}
+
+func (p *proc) learn(m protoMsg) {
+	p.entMu.Lock()
+	p.ents[m.Seq] = m.Entry
+	p.entMu.Unlock()
 }
 
 func (p *proc) markVals() (ai, chunk int, seq uint64) {
@@ -424,6 +513,125 @@ type driver struct {
 	nproc   atomic.Int64
 	mu      sync.Mutex
 	ceil    time.Duration
+	hanging map[string]bool   // hang keys (site/hang) confirmed in this run
+	skips   map[task][]uint64 // calls already reported as hang/fatal, not executed again
+	seen    map[string]bool   // violations already handed to enumx
+}
+
+func (d *driver) isHanging(key string) bool {
+	d.mu.Lock()
+	defer d.mu.Unlock()
+	return d.hanging[key]
+}
+
+func (d *driver) anyHang() bool {
+	d.mu.Lock()
+	defer d.mu.Unlock()
+	return len(d.hanging) > 0
+}
+
+// hangSite finds where a stalled worker is: the innermost kit function on the
+// stack of the goroutine that runs the call (or, if that goroutine only waits,
+// of any other goroutine).
+func hangSite(dump string) string {
+	blocks := strings.Split(dump, "\n\n")
+	site := func(b string) string {
+		for _, l := range strings.Split(b, "\n") {
+			if strings.HasPrefix(l, kitPrefix) {
+				if k := strings.LastIndex(l, "("); k > 0 {
+					l = l[:k]
+				}
+				return display(l)
+			}
+		}
+		return ""
+	}
+	for _, b := range blocks {
+		if strings.Contains(b, "guard.(*Ctx).Call(") {
+			if s := site(b); s != "" {
+				return s
+			}
+		}
+	}
+	for _, b := range blocks {
+		if strings.Contains(b, "guard.") {
+			continue
+		}
+		if s := site(b); s != "" {
+			return s
+		}
+	}
+	return ""
+}
+
+func hangKey(entry, dump string) string {
+	if s := hangSite(dump); s != "" {
+		return s + "/hang"
+	}
+	return entry + "/hang"
+}
+
+func stackOfCall(dump string) string {
+	pick := ""
+	for _, b := range strings.Split(dump, "\n\n") {
+		if strings.Contains(b, "guard.(*Ctx).Call(") {
+			pick = b
+			break
+		}
+	}
+	if pick == "" {
+		return tailStr(dump, 1200)
+	}
+	// function names only, consecutive repeats collapsed
+	var out []string
+	prev, rep := "", 0
+	flush := func() {
+		if prev == "" {
+			return
+		}
+		if rep > 1 {
+			prev += fmt.Sprintf(" (x%d)", rep)
+		}
+		out = append(out, prev)
+	}
+	for i, l := range strings.Split(pick, "\n") {
+		if i == 0 || strings.HasPrefix(l, "\t") || l == "" {
+			continue
+		}
+		if k := strings.LastIndex(l, "("); k > 0 {
+			l = l[:k]
+		}
+		if l == prev {
+			rep++
+			continue
+		}
+		flush()
+		prev, rep = l, 1
+		if strings.HasSuffix(l, "guard.(*Ctx).Call") {
+			break
+		}
+	}
+	flush()
+	if len(out) > 24 {
+		out = append(out[:12], append([]string{"..."}, out[len(out)-11:]...)...)
+	}
+	return "stalled in: " + strings.Join(out, "\n  <- ")
+}
+
+func (d *driver) skipList(t task) string {
+	d.mu.Lock()
+	defer d.mu.Unlock()
+	var f []string
+	for _, s := range d.skips[t] {
+		f = append(f, strconv.FormatUint(s, 10))
+	}
+	return strings.Join(f, ",")
+}
+
+func (d *driver) addSkip(t task, seq uint64) {
+	d.mu.Lock()
+	d.skips[t] = append(d.skips[t], seq)
+	d.mu.Unlock()
 }
 
 func (d *driver) spawn(extraEnv ...string) (*proc, error) {
@@ -454,12 +662,13 @@ func (d *driver) spawn(extraEnv ...string) (*proc, error) {
 	pw.Close()
 	sc := bufio.NewScanner(pr)
 	sc.Buffer(make([]byte, 1<<20), 16<<20)
-	return &proc{cmd: cmd, stdin: stdin, proto: sc, protoR: pr, mark: mark, stderr: se}, nil
+	return &proc{cmd: cmd, stdin: stdin, proto: sc, protoR: pr, mark: mark, stderr: se, ents: map[uint64]string{}}, nil
 }
 
 type task struct{ area, chunk int }
 
 type uptoResult struct {
+	dump         string // goroutine dump of a stalled worker
 	entry, input string
 	outcome      string // survived | died | timeout | notreached
 	stderr       string
@@ -468,8 +677,8 @@ type uptoResult struct {
 
 // runSuspect re-runs one chunk in a fresh worker up to (and including) the
 // suspected call, or (match mode) the call identified by entry+input.
-func (d *driver) runSuspect(t task, seq uint64, entry, input string) uptoResult {
-	env := []string{envTask + "=" + fmt.Sprintf("%d:%d", t.area, t.chunk)}
+func (d *driver) runSuspect(t task, seq uint64, entry, input string, ceil time.Duration) uptoResult {
+	env := []string{envTask + "=" + fmt.Sprintf("%d:%d", t.area, t.chunk), envSkip + "=" + d.skipList(t)}
 	if seq > 0 {
 		env = append(env, envMode+"=upto", envSeq+"="+strconv.FormatUint(seq, 10))
 	} else {
@@ -513,9 +722,11 @@ func (d *driver) runSuspect(t task, seq uint64, entry, input string) uptoResult 
 			switch m.T {
 			case "at":
 				res.entry, res.input, res.outcome = m.Entry, m.Input, "at"
-				timer = time.After(d.ceil)
+				timer = time.After(ceil)
 			case "viol":
 				res.viols = append(res.viols, m)
+			case "stuck":
+				res.dump = m.Msg
 			case "survived":
 				res.outcome = "survived"
 				return res
@@ -528,6 +739,21 @@ func (d *driver) runSuspect(t task, seq uint64, entry, input string) uptoResult 
 		case <-timer:
 			res.outcome = "timeout"
 			res.stderr = p.stderr.String()
+			p.nudge()
+			wait := time.After(4 * time.Second)
+			for res.dump == "" {
+				select {
+				case m, ok := <-lines:
+					if !ok {
+						return res
+					}
+					if m.T == "stuck" {
+						res.dump = m.Msg
+					}
+				case <-wait:
+					return res
+				}
+			}
 			return res
 		case <-stall.C:
 			_, _, s := p.markVals()
@@ -586,51 +812,72 @@ func tailStr(s string, n int) string {
 }
 
 func (d *driver) violation(a *Area, t task, kind, key, msg, entry, input string) {
+	id := fmt.Sprintf("%s\x00%d\x00%s\x00%s\x00%s", a.Name, t.chunk, key, entry, input)
+	d.mu.Lock()
+	dup := d.seen[id]
+	d.seen[id] = true
+	d.mu.Unlock()
+	if dup {
+		return // the chunk was run again after a lost worker
+	}
 	d.r.Violation(key, msg, ReplayCase{Area: a.Name, Chunk: t.chunk, Entry: entry, Input: input, Kind: kind})
 }
 
-// judgeDeath is called when a worker died (or was killed as hung) while the
-// marker showed call seq of task t. It returns true if the chunk should be
-// retried.
-func (d *driver) judgeDeath(t task, seq uint64, hung bool, stderr string) (retry bool) {
+// judgeDeath is called when a worker died (or was stopped as stalled) while
+// the marker showed call seq of task t. It returns "confirmed" (a violation was
+// reported: the call goes on the chunk's skip list and the chunk is run
+// again), "retry" (not reproducible: run the chunk again once) or "abandon".
+func (d *driver) judgeDeath(t task, seq uint64, hung bool, stuck *protoMsg, stderr string) string {
 	a := d.areas[t.area]
 	if seq == 0 {
 		d.r.Incomplete(fmt.Sprintf("%s chunk %d: worker died outside any call (harness fault): %s", a.Name, t.chunk, tailStr(stderr, 600)))
-		return false
+		return "abandon"
 	}
 	if hung {
+		if stuck != nil && stuck.Seq == seq {
+			key := hangKey(stuck.Entry, stuck.Msg)
+			if d.isHanging(key) {
+				// same site as a hang already confirmed with the full ceiling
+				d.violation(a, t, "hang", key, fmt.Sprintf("%s stalled on input %s at the site of a hang that was already confirmed in this run with the full ceiling of %s on three re-runs (this instance: stopped after %s, not re-confirmed)\n  %s", stuck.Entry, stuck.Input, d.ceil, reducedCeiling, strings.ReplaceAll(stackOfCall(stuck.Msg), "\n", "\n  ")), stuck.Entry, stuck.Input)
+				return "confirmed"
+			}
+		}
 		n := 0
 		var last uptoResult
 		for i := 0; i < 3; i++ {
-			last = d.runSuspect(t, seq, "", "")
+			last = d.runSuspect(t, seq, "", "", d.ceil)
 			if last.outcome != "timeout" {
 				break
 			}
 			n++
 		}
 		if n == 3 {
-			d.violation(a, t, "hang", last.entry+"/hang",
-				fmt.Sprintf("%s did not return within %s on input %s (confirmed on 3 separate re-runs after the first observation)", last.entry, d.ceil, last.input),
-				last.entry, last.input)
-			return false
+			key := hangKey(last.entry, last.dump)
+			d.violation(a, t, "hang", key, fmt.Sprintf("%s did not return within %s on input %s (first seen in the sweep, then confirmed on 3 separate isolated re-runs)\n  %s", last.entry, d.ceil, last.input, strings.ReplaceAll(stackOfCall(last.dump), "\n", "\n  ")), last.entry, last.input)
+			d.mu.Lock()
+			d.hanging[key] = true
+			d.mu.Unlock()
+			return "confirmed"
 		}
 		if last.outcome == "died" {
-			return d.reportDeath(a, t, last)
+			d.reportDeath(a, t, last)
+			return "confirmed"
 		}
-		return true // not confirmed: slow machine; run the chunk again
+		return "retry" // not confirmed: slow machine; run the chunk again
 	}
-	res := d.runSuspect(t, seq, "", "")
+	res := d.runSuspect(t, seq, "", "", d.ceil)
 	switch res.outcome {
 	case "died":
-		return d.reportDeath(a, t, res)
+		d.reportDeath(a, t, res)
+		return "confirmed"
 	case "timeout":
-		return d.judgeDeath(t, seq, true, stderr)
+		return d.judgeDeath(t, seq, true, nil, stderr)
 	default:
-		return true
+		return "retry"
 	}
 }
 
-func (d *driver) reportDeath(a *Area, t task, res uptoResult) bool {
+func (d *driver) reportDeath(a *Area, t task, res uptoResult) {
 	text, names := classifyDeath(res.stderr)
 	key := ""
 	if strings.HasPrefix(text, "fatal error:") || strings.Contains(text, "out of memory") || len(names) == 0 {
@@ -645,7 +892,6 @@ func (d *driver) reportDeath(a *Area, t task, res uptoResult) bool {
 	d.violation(a, t, "fatal", key,
 		fmt.Sprintf("%s killed the process on input %s (observed twice: in the sweep and in an isolated re-run): %s\n  %s", res.entry, res.input, text, strings.ReplaceAll(tailStr(res.stderr, 1500), "\n", "\n  ")),
 		res.entry, res.input)
-	return false
 }
 
 type areaStat struct {
@@ -715,7 +961,8 @@ func (d *driver) run() {
 				}
 				p.stderr.Reset()
 				p.hung.Store(false)
-				fmt.Fprintf(p.stdin, "%d:%d\n", t.area, t.chunk)
+				p.stuck = nil
+				fmt.Fprintf(p.stdin, "%d:%d:%s\n", t.area, t.chunk, d.skipList(t))
 				// watchdog
 				stop := make(chan struct{})
 				go func(p *proc) {
@@ -731,9 +978,12 @@ func (d *driver) run() {
 							_, _, s := p.markVals()
 							if s != last {
 								last, lastChange = s, time.Now()
-							} else if time.Since(lastChange) > d.ceil {
+							} else if time.Since(lastChange) > d.ceil || (time.Since(lastChange) > reducedCeiling && d.anyHang()) {
+								// after the first confirmed hang of the run, stalls are
+								// looked at after the reduced ceiling; a stall at a new
+								// site is still confirmed with the full ceiling
 								p.hung.Store(true)
-								p.kill()
+								p.nudge()
 								return
 							}
 						}
@@ -744,6 +994,13 @@ func (d *driver) run() {
 					var m protoMsg
 					if json.Unmarshal(p.proto.Bytes(), &m) != nil {
 						continue
+					}
+					if m.T == "entry" {
+						p.learn(m)
+					}
+					if m.T == "stuck" {
+						mm := m
+						p.stuck = &mm
 					}
 					if m.T == "viol" {
 						stats[t.area].viols.Add(1)
@@ -769,10 +1026,17 @@ func (d *driver) run() {
 				p.cmd.Wait()
 				_, _, seq := p.markVals()
 				hung := p.hung.Load()
+				stuck := p.stuck
 				se := p.stderr.String()
 				p.close()
 				p = nil
-				if d.judgeDeath(t, seq, hung, se) {
+				switch d.judgeDeath(t, seq, hung, stuck, se) {
+				case "confirmed":
+					d.addSkip(t, seq)
+					retryMu.Lock()
+					retryQ = append(retryQ, t)
+					retryMu.Unlock()
+				case "retry":
 					retryMu.Lock()
 					retried[t]++
 					if retried[t] <= 1 {
@@ -816,8 +1080,10 @@ func (d *driver) replay(rc *enumx.ReplayCase) {
 			tries = 3
 		}
 		timeouts := 0
+		dump := ""
 		for i := 0; i < tries; i++ {
-			res := d.runSuspect(t, 0, c.Entry, c.Input)
+			res := d.runSuspect(t, 0, c.Entry, c.Input, d.ceil)
+			dump = res.dump
 			for _, v := range res.viols {
 				d.violation(a, t, "panic", v.Key, v.Msg, v.Entry, v.Input)
 			}
@@ -835,7 +1101,7 @@ func (d *driver) replay(rc *enumx.ReplayCase) {
 			}
 		}
 		if timeouts == tries {
-			d.violation(a, t, "hang", c.Entry+"/hang", fmt.Sprintf("%s did not return within %s on input %s (%d runs)", c.Entry, d.ceil, c.Input, tries), c.Entry, c.Input)
+			d.violation(a, t, "hang", hangKey(c.Entry, dump), fmt.Sprintf("%s did not return within %s on input %s (%d runs)", c.Entry, d.ceil, c.Input, tries), c.Entry, c.Input)
 		}
 		return
 	}
@@ -862,10 +1128,10 @@ func Main(t *testing.T, property, part string, areas func(thorough bool) []*Area
 		if own {
 			defer os.RemoveAll(scratch)
 		}
-		d := &driver{r: r, areas: areas(r.Thorough()), tier: r.Tier, scratch: scratch, ceil: ceiling()}
+		d := &driver{r: r, areas: areas(r.Thorough()), tier: r.Tier, scratch: scratch, ceil: ceiling(), hanging: map[string]bool{}, skips: map[task][]uint64{}, seen: map[string]bool{}}
 		r.Rule(rule)
 		r.Assume("C07 is decided for all inputs up to the stated bounds, not all byte strings: every member of each bounded family (token sequences, short strings over the stated alphabets, every truncation and single-byte mutation class of valid encodings, every length 0..64 of a byte argument) is executed; coverage-guided fuzzing is a different family and is not used")
-		r.Assume("hang = a call that does not return within the per-call ceiling (30 s unless overridden; slowest legitimate call observed is an unsatisfiable cron Next), observed once in the sweep and confirmed on three isolated re-runs")
+		r.Assume("hang = a call that does not return within the per-call ceiling (30 s unless overridden; slowest legitimate call observed is an unsatisfiable cron Next, ~50 ms), observed once in the sweep and confirmed on three isolated re-runs; after a hang has been confirmed, further stalls at the same code site are recorded under the same key after 5 s without re-confirmation")
 		r.Assume("documented programmer-misuse panics are excluded by construction: AEAD Seal with a wrong-size nonce, cron.NewParser with two optional fields, ttlcache.Set with ttl<=0, errors.Build without ErrorInfo; in-memory arguments are well-formed Go values (no nil interfaces / typed-nil key objects)")
 		if replay != nil {
 			d.replay(replay)
